@@ -253,6 +253,22 @@ def corpus(ctx):
         for it in ("SEMANTIC", "UNMATCHED", "MATCHED"):
             ctx.count("group_labels_beyond_image_dtype")
             one_case(ctx, pred, ref, E.mk_cfg(it, ["IOU", "DSC"], matcher=E.naive("IOU", (1, 2)) if it != "MATCHED" else None), gs, "corpus.beyond-dtype")
+    # labels of different groups that agree modulo 2^8 / 2^16 (1, 2 next to 257, 258; 3 next to 65539), present in maps wide enough to hold
+    # them: a group's restriction carried out in a narrower type than the map's would let the other group's voxels in
+    for dt, off in ((np.uint16, 256), (np.uint32, 256), (np.uint32, 65536), (np.uint64, 65536)):
+        ref = np.zeros((6, 14), dt)
+        ref[1:4, 1:4], ref[1:4, 5:8] = 1, 2
+        ref[1:5, 9:13] = off + 1
+        ref[4:6, 1:4] = off + 2
+        pred = np.roll(ref, 1, axis=1)
+        pred[pred == off + 1] = off + 2
+        gs = [{"name": "small", "labels": [1, 2], "merge": False, "single": False},
+              {"name": "large", "labels": [off + 1, off + 2], "merge": False, "single": False}]
+        for it in ("UNMATCHED", "MATCHED", "SEMANTIC"):
+            ctx.count("group_labels_congruent_modulo_a_dtype")
+            one_case(ctx, pred, ref, E.mk_cfg(it, ["IOU", "DSC"], matcher=E.naive("IOU", (1, 2)) if it != "MATCHED" else None), gs, "corpus.congruent-labels")
+        gs2 = [{"name": "small", "labels": [1, 2], "merge": True, "single": False}, {"name": "large", "labels": [off + 1, off + 2], "merge": False, "single": False}]
+        one_case(ctx, pred, ref, E.mk_cfg("UNMATCHED", ["IOU", "DSC"], matcher=E.naive("IOU", (1, 2))), gs2, "corpus.congruent-labels")
     # the caller's label lists change after the groups were defined
     ref = np.zeros((6, 12), np.uint8)
     ref[1:4, 1:4], ref[1:4, 5:8], ref[1:4, 9:12] = 1, 2, 3
